@@ -187,6 +187,17 @@ pub fn pong(back: fn() -> null) { back(); }
 fn main() {}
 `, d)
 	}},
+	// threads: a core's call depth is its own (not its spawner's, not its ancestors')
+	{name: "spawn-relay", gen: func(d int) string {
+		return fmt.Sprintf(`fn relay(n: int) { if n > 0 { spawn relay(n - 1); } else { println("relay done"); } }
+fn main() { spawn relay(%d); println("main done"); }`, d)
+	}},
+	{name: "spawn-from-deep-recursion", gen: func(d int) string {
+		return fmt.Sprintf(`fn r(n: int) -> int { if n == 0 { 0 } else { 1 + r(n - 1) } }
+fn worker(n: int) { println("worker", r(n)); }
+fn deep(n: int) -> int { if n == 0 { spawn worker(%d); 0 } else { 1 + deep(n - 1) } }
+fn main() { println("deep", deep(%d)); }`, d/2, d)
+	}},
 	// names: the stack trace of the limit error has to cope with whatever the host and the script are called
 	{name: "recursion-long-names", interp: true, depthOf: func(d int) int { return d + 1 }, gen: func(d int) string {
 		long := "measure_the_temperature_in_every_room_of_the_house_and_report_it"
